@@ -25,10 +25,15 @@ THEOREMS = [
     "C09_inline",
     "C09_inline_history",
     "C09_flatten",
+    "C09_inline_any_schedule",
+    "C09_run_eq_any_schedule",
+    "C09_refused_run",
+    "C09_hint_chain_is_C04",
     "C09_macro_eq_inlined",
     "C09_by_value_rerun",
     "C09_links_sync_partial",
     "C09_child_output_sync",
+    "C09_ui_output_sync",
     "C09_links_read",
     "C09_setter_keeps_links",
     "C09_assignment_reaches_chain",
@@ -40,6 +45,8 @@ THEOREMS = [
     "C09_dup_return_witness",
     "C09_isolated",
     "C09_interface",
+    "C09_preview_own_function",
+    "C09_preview_pinned_witness",
     "C09_input_by_value",
     "C09_unused_argument",
     "C09_hint_checked_only_when_single_use",
@@ -562,6 +569,12 @@ def gen_history(rng, defn, mode, cache):
             ops.append(["run"])
     if not any(o[0] in ("run", "call") for o in ops):
         ops.append(["run"])
+    # some runs go through a by-value executor: the macro itself (pickled, run on the copy, merged back) or a
+    # nested macro child inside the run
+    mac_paths = [[]] + [list(p) for p in _paths(defn) if node_at(defn, p)["t"] == "M"]
+    for i, o in enumerate(ops):
+        if o[0] == "run" and rng.random() < 0.15:
+            ops[i] = ["runx", rng.choice(mac_paths)]
     return kwargs, ops
 
 
@@ -641,6 +654,70 @@ def _pattern_cases():
     return out
 
 
+def gen_chain(rng):
+    """a chain/tree of macro classes extending each other (some override graph_creator, some declare labels,
+    some do neither) and preview requests on them in any order"""
+    ncls = rng.randint(2, 4)
+    nret = rng.choice([1, 1, 2])
+    classes = []
+    for c in range(ncls):
+        parent = None if c == 0 else rng.randrange(c)
+        overrides = c == 0 or rng.random() < 0.65
+        declared = [f"d{c}_{r}" for r in range(nret)] if rng.random() < 0.25 else None
+        # the creator makes c+1 leaves in a chain and returns the last nret of: leaves / the parameter
+        nleaf = rng.randint(max(1, nret), 3) if overrides else 0
+        rets = []
+        if overrides:
+            pool = [f"c{j}" for j in range(nleaf)] + ["x0"]
+            rng.shuffle(pool)
+            rets = pool[:nret]
+        classes.append({"parent": parent, "overrides": overrides, "declared": declared, "nleaf": nleaf, "rets": rets})
+    reqs = [rng.randrange(ncls) for _ in range(rng.randint(2, 7))]
+    return {"chain": classes, "reqs": reqs}
+
+
+def chain_source(case):
+    lines = ["from __future__ import annotations", "", "from pyiron_workflow import Macro", "", "from pwh import nodes", ""]
+    for c, k in enumerate(case["chain"]):
+        base = "Macro" if k["parent"] is None else f"K{k['parent']}"
+        lines += ["", f"class K{c}({base}):"]
+        body = []
+        if k["declared"] is not None:
+            body.append(f"    _output_labels = {tuple(k['declared'])!r}")
+        if k["overrides"]:
+            body.append("    def graph_creator(self, x0='c1'):")
+            for j in range(k["nleaf"]):
+                src = "x0" if j == 0 else f"self.c{j - 1}"
+                body.append(f"        self.c{j} = nodes.F{(c * 3 + j) % 32}(a={src}, b=x0)")
+            body.append("        return " + ", ".join(r if r == "x0" else f"self.{r}" for r in k["rets"]))
+        if not body:
+            body.append("    pass")
+        lines += body
+    return "\n".join(lines) + "\n"
+
+
+def _chain_tables(case):
+    """label tokens -> numbers; per class (parent, own function id, declared numbers); per function its labels"""
+    labs = sorted({l for k in case["chain"] for l in (k["declared"] or []) + k["rets"]})
+    num = {l: i for i, l in enumerate(labs)}
+    return num
+
+
+def chain_spec(case, c):
+    """what the property demands: explicit labels of the nearest class that gives some, else the labels of the
+    nearest graph_creator"""
+    k = case["chain"]
+    x = c
+    while x is not None:
+        if k[x]["declared"] is not None:
+            return list(k[x]["declared"])
+        x = k[x]["parent"]
+    x = c
+    while not k[x]["overrides"]:
+        x = k[x]["parent"]
+    return list(k[x]["rets"])
+
+
 MALFORMED = [
     "frobnicate",
     "def L 0 0",
@@ -652,6 +729,8 @@ MALFORMED = [
     "setin 0..1 0 c1",
     "setout - 0",
     "cfg 2 0",
+    "pv 1 2 1 10 - 0 11 - 0 0",
+    "pv 2 0 0 0",
     "cfg 1",
     "run now",
     "call 1 0 c0",
@@ -667,7 +746,7 @@ def gen_cases(rng, tier):
         rng.shuffle(pats)
         yield from pats[:60]
     else:
-        n = 12000
+        n = 9000
         yield from _pattern_cases()
     for i in range(n):
         r = i % 5
@@ -678,6 +757,8 @@ def gen_cases(rng, tier):
         allow_ill = rng.random() < 0.15
         d = rng.choice([0, 1, 1, 2]) if tier == "quick" else rng.choice([0, 1, 1, 2, 2])
         yield _case(rng, d, mode, allow_dup, allow_ill)
+    for _ in range(60 if tier == "quick" else 600):
+        yield gen_chain(rng)
     yield {"malformed": MALFORMED}
 
 
@@ -786,7 +867,24 @@ def _variant():
             unlinked = 1 if ProbeUnusedC09().inputs.x1.value_receiver is None else 0
         except Exception:  # noqa: BLE001
             unlinked = 0
-        _VARIANT = [dup, unlinked]
+        try:
+            from pyiron_workflow import Macro
+
+            class ProbeParentC09(Macro):
+                def graph_creator(self, x0="c1"):
+                    self.c0 = nodes.F0(a=x0)
+                    return self.c0
+
+            class ProbeChildC09(ProbeParentC09):
+                def graph_creator(self, x0="c1"):
+                    self.c1 = nodes.F1(a=x0)
+                    return self.c1
+
+            ProbeParentC09.preview_io()
+            own = 1 if list(ProbeChildC09.preview_io()["outputs"]) == ["c1"] else 0
+        except Exception:  # noqa: BLE001
+            own = 0
+        _VARIANT = [dup, unlinked, own]
     return _VARIANT
 
 
@@ -992,10 +1090,44 @@ def _run_flat(defn, in_vals, ov_py):
     return [tok(s[1]) if s[0] == "v" else tok(made[s[1]].outputs.o.value) for s in outs]
 
 
+def _by_value_cls():
+    from concurrent.futures import Executor, Future
+
+    import cloudpickle
+
+    class ByValue(Executor):
+        """the job, its arguments and its result cross an emulated process boundary; it completes at once"""
+
+        def submit(self, fn, /, *args, **kwargs):
+            fut = Future()
+            try:
+                fn2, a2, k2 = cloudpickle.loads(cloudpickle.dumps((fn, args, kwargs)))
+                fut.set_result(cloudpickle.loads(cloudpickle.dumps(fn2(*a2, **k2))))
+            except BaseException as e:  # noqa: BLE001
+                fut.set_exception(e)
+            return fut
+
+    return ByValue
+
+
+def _ByValue():
+    return _by_value_cls()()
+
+
 def run_impl(case):
     variant = list(_variant())
     if "malformed" in case:
         return {"obs": ["bad-op"] * len(case["malformed"]), "variant": variant, "stats": {"malformed": 1}}
+    if "chain" in case:
+        modname = f"c09k_{_h(case['chain'])}"
+        cwd = os.getcwd()
+        sys.path.insert(0, cwd)
+        try:
+            return _run_chain(case, modname, variant)
+        finally:
+            sys.modules.pop(modname, None)
+            if cwd in sys.path:
+                sys.path.remove(cwd)
     modname = f"c09m_{_h(case['def'])}"
     cwd = os.getcwd()
     sys.path.insert(0, cwd)
@@ -1005,6 +1137,41 @@ def run_impl(case):
         sys.modules.pop(modname, None)
         if cwd in sys.path:
             sys.path.remove(cwd)
+
+
+def _run_chain(case, modname, variant):
+    import importlib
+
+    num = _chain_tables(case)
+    with open(f"{modname}.py", "w") as f:
+        f.write(chain_source(case))
+    importlib.invalidate_caches()
+    got = []
+    try:
+        mod = importlib.import_module(modname)
+    except Exception as e:  # noqa: BLE001
+        return {"obs": [f"def-exc:{type(e).__name__}"], "variant": variant, "chain_got": None,
+                "exc": f"{type(e).__name__}: {e}", "stats": {"chain": 1}}
+    for c in case["reqs"]:
+        try:
+            got.append(list(getattr(mod, f"K{c}").preview_io()["outputs"]))
+        except Exception as e:  # noqa: BLE001
+            got.append(f"raised {type(e).__name__}: {str(e)[:160]}")
+    # one class of the chain is also instantiated and run: its output channels carry the same labels
+    inst = None
+    try:
+        c = case["reqs"][-1]
+        m = getattr(mod, f"K{c}")(label="m")
+        m.run()
+        inst = [c, list(m.outputs.labels), [tok(ch.value) for ch in m.outputs]]
+    except Exception as e:  # noqa: BLE001
+        inst = [case["reqs"][-1], f"raised {type(e).__name__}: {str(e)[:160]}", []]
+
+    def show(l):
+        return "?" if isinstance(l, str) else "[" + ",".join(str(num.get(x, "?")) for x in l) + "]"
+
+    return {"obs": ["pv " + ";".join(show(l) for l in got)], "variant": variant, "chain_got": got, "inst": inst,
+            "stats": {"chain": 1, f"chain:n{len(case['chain'])}": 1}}
 
 
 def _run(case, modname, variant):
@@ -1087,13 +1254,36 @@ def _run(case, modname, variant):
             facts["snaps"].append(None)
             continue
         try:
-            if op[0] in ("run", "call"):
+            if op[0] in ("run", "call", "runx"):
                 try:
-                    if op[0] == "run":
+                    if op[0] == "runx":
+                        bump("run:by-value")
+                        tgt = _descend(m, op[1])
+                        tgt.executor = _ByValue()
+                        try:
+                            out = m.run()
+                            if hasattr(out, "result") and not op[1]:
+                                out.result(timeout=60)
+                        finally:
+                            _descend(m, op[1]).executor = None
+                    elif op[0] == "run":
                         m.run()
                     else:
                         m(**{f"x{k}": D.to_py(v) for k, v in op[1]})
                 except Exception as e:  # noqa: BLE001
+                    from pyiron_workflow.mixin.run import ReadinessError
+
+                    if isinstance(e, ReadinessError):
+                        # the macro's own gate refused (a child's refusal arrives as FailedChildError): the
+                        # history goes on
+                        snap = _snap(defn, m)
+                        obs.append("run refused")
+                        obs.append("st " + _show(snap))
+                        facts["snaps"].append(snap)
+                        facts["runs"].append({"ok": False, "refused": True, "failed_flag": bool(m.failed),
+                                              "exc": f"{type(e).__name__}: {str(e)[:200]}"})
+                        bump("run:refused")
+                        continue
                     obs.append("run fail")
                     facts["snaps"].append(None)
                     facts["runs"].append({"ok": False, "exc": f"{type(e).__name__}: {str(e)[:200]}"})
@@ -1164,6 +1354,8 @@ def _run(case, modname, variant):
 def nontrivial(case, r):
     if "malformed" in case:
         return False
+    if "chain" in case:
+        return any(not k["overrides"] or k["declared"] for k in case["chain"][1:]) or len(case["chain"]) > 2
     return bool(case["def"]["body"]) and any(x.get("ok") for x in r.get("facts", {}).get("runs", []))
 
 
@@ -1173,6 +1365,25 @@ def nontrivial(case, r):
 def model_input(case, impl=None):
     if "malformed" in case:
         return list(case["malformed"])
+    if "chain" in case:
+        v = (impl or {}).get("variant") or [0, 0, 1]
+        num = _chain_tables(case)
+        toks = ["pv", str(v[2] if len(v) > 2 else 1), str(len(case["chain"]))]
+        fns = []
+        for c, k in enumerate(case["chain"]):
+            toks.append("-" if k["parent"] is None else str(k["parent"]))
+            toks.append(str(100 + c) if k["overrides"] else "-")
+            if k["declared"] is None:
+                toks.append("-")
+            else:
+                toks += [str(len(k["declared"]))] + [str(num[x]) for x in k["declared"]]
+            if k["overrides"]:
+                fns.append([str(100 + c), str(len(k["rets"]))] + [str(num[x]) for x in k["rets"]])
+        toks.append(str(len(fns)))
+        for f in fns:
+            toks += f
+        toks += [str(len(case["reqs"]))] + [str(c) for c in case["reqs"]]
+        return [" ".join(toks)]
     v = (impl or {}).get("variant") or [0, 0]
     lines = [f"cfg {v[0]} {v[1]}", "def " + " ".join(node_toks(case["def"]))]
     kw = []
@@ -1180,8 +1391,8 @@ def model_input(case, impl=None):
         kw += [str(k), *ptoks(val)]
     lines.append(" ".join(["build", str(len(case["kwargs"])), *kw]))
     for op in case["ops"]:
-        if op[0] == "run":
-            lines.append("run")
+        if op[0] in ("run", "runx"):
+            lines.append("run")  # executors are transparent (C10): the model runs in place
         elif op[0] == "call":
             kw = []
             for k, val in op[1]:
@@ -1196,7 +1407,7 @@ def model_input(case, impl=None):
 
 def corr_view(case, impl):
     obs = impl["obs"]
-    if "malformed" in case:
+    if "malformed" in case or "chain" in case:
         return obs
     if impl.get("facts", {}).get("build") == "iface":
         # the interface clause already failed (reported by the oracle): the object is not the defined macro
@@ -1243,7 +1454,7 @@ def _op_repairs(defn, op, cache):
             out += chain_out(defn, op[1][:-1], ["o", op[1][-1], op[2]])
     elif op[0] == "setuiout":
         out += chain_out(defn, op[1], ["a", op[2]])
-    if op[0] in ("run", "call") and not cache:
+    if op[0] in ("run", "call", "runx") and not cache:
         # everything is recomputed: every child output is set again, every connected input fetched again
         for p in [()] + _paths(defn):
             nd = node_at(defn, p)
@@ -1289,6 +1500,38 @@ def _sync_all(n, s, path, out):
 def oracle(case, impl):
     if "malformed" in case:
         return []
+    if "chain" in case:
+        got = impl.get("chain_got")
+        if got is None:
+            return _f("definition", f"the generated classes do not import: {impl.get('exc')}", trigger="def")
+        for t, (c, l) in enumerate(zip(case["reqs"], got)):
+            exp = chain_spec(case, c)
+            if l != exp:
+                return _f("interface", f"request #{t}: class K{c} reports output labels {l}, its defining function "
+                          f"gives {exp}", trigger="preview", part="output-labels", label_inheritance=False,
+                          chain=True)
+        inst = impl.get("inst")
+        if inst is not None:
+            c, labels, vals = inst
+            if labels != chain_spec(case, c):
+                return _f("interface", f"instance of K{c} has output labels {labels}, expected {chain_spec(case, c)}",
+                          trigger="build", part="output-labels", label_inheritance=False, chain=True)
+            # outputs = plain evaluation of the nearest creator
+            k = case["chain"]
+            x = c
+            while not k[x]["overrides"]:
+                x = k[x]["parent"]
+            vals_exp = {}
+            prev = "c1"
+            for j in range(k[x]["nleaf"]):
+                prev = f"f{(x * 3 + j) % 32}({prev},c1,d)"
+                vals_exp[f"c{j}"] = prev
+            vals_exp["x0"] = "c1"
+            exp = [vals_exp[r] for r in k[x]["rets"]]
+            if vals != exp:
+                return _f("outputs", f"instance of K{c} returned {vals}, its creator composes to {exp}",
+                          trigger="run", against="python", chain=True)
+        return []
     defn = case["def"]
     facts = impl.get("facts") or {}
     b = facts.get("build")
@@ -1327,7 +1570,7 @@ def oracle(case, impl):
     ops = [["build"]] + list(case["ops"])
     for t, (op, s) in enumerate(zip(ops, snaps)):
         rf = None
-        if op[0] in ("run", "call"):
+        if op[0] in ("run", "call", "runx"):
             rf = facts["runs"][run_i]
             run_i += 1
             if not rf["ok"]:
@@ -1340,7 +1583,19 @@ def oracle(case, impl):
                 if "ND" not in ins and not broken and not dup:
                     fails += _f("run-failed", f"run #{run_i} failed with all inputs given: {rf.get('exc')}",
                                 trigger=op[0])
-                break
+                    break
+                if not rf.get("refused"):
+                    break
+                # refused at the macro's own gate: nothing ran, nothing changed but the inputs a call assigned,
+                # nothing is marked failed
+                if rf.get("failed_flag"):
+                    return fails + _f("refused-run", f"run #{run_i} was refused but the macro is marked failed",
+                                      trigger=op[0])
+                unchanged = dict(prev)
+                unchanged["in"] = ins
+                if op[0] != "call" and s is not None and s != prev:
+                    return fails + _f("refused-run", f"run #{run_i} was refused but the state changed", trigger=op[0])
+                rf = None
         if s is None:
             break
         if op[0] == "setin" and op[1] and input_kind(defn, op[1], op[2]) == "free":
@@ -1361,8 +1616,9 @@ def oracle(case, impl):
                     fails += _f("sync", f"after op #{t} {op}: macro {path_tok(path)} {detail}", side=side,
                                 trigger=op[0], receiving_side=True, dup_return=isdup)
                 continue
-            bad = _f("sync", f"after op #{t} {op}: macro {path_tok(path)} {detail}", side=side, trigger=op[0],
-                     receiving_side=False, dup_return=isdup)
+            # (own clause name: the engine shrinks per clause and must not shrink onto the excused failure)
+            bad = _f("sync" if isdup else "sync-broken", f"after op #{t} {op}: macro {path_tok(path)} {detail}",
+                     side=side, trigger=op[0], receiving_side=False, dup_return=isdup)
             break
         if bad:
             return fails + bad
@@ -1391,6 +1647,11 @@ def _refs_child(m, j):
 def shrink_candidates(case):
     if "malformed" in case:
         return
+    if "chain" in case:
+        for i in range(len(case["reqs"])):
+            if len(case["reqs"]) > 1:
+                yield {**case, "reqs": case["reqs"][:i] + case["reqs"][i + 1:]}
+        return
     ops = case["ops"]
     for i in range(len(ops)):
         yield {**case, "ops": ops[:i] + ops[i + 1:]}
@@ -1400,7 +1661,7 @@ def shrink_candidates(case):
     # drop the last child when nothing refers to it and no op addresses it
     if d["body"] and not _refs_child(d, len(d["body"]) - 1):
         j = len(d["body"]) - 1
-        if not any(o[0] not in ("run", "call") and o[1] and o[1][0] == j for o in ops):
+        if not any(o[0] not in ("run", "call") and len(o) > 1 and o[1] and o[1][0] == j for o in ops):
             nd = json.loads(json.dumps(d))
             nd["body"].pop()
             if nd["flow"] == "wired" and len(nd["body"]) < 2:
@@ -1417,7 +1678,7 @@ def shrink_candidates(case):
     # replace a nested macro child by a leaf when no op goes below it
     for j, ch in enumerate(d["body"]):
         if ch["t"] == "M" and D.nout(ch) == 1 and not any(
-            o[0] not in ("run", "call") and len(o[1]) >= 1 and o[1][0] == j for o in ops
+            o[0] not in ("run", "call") and len(o) > 1 and len(o[1]) >= 1 and o[1][0] == j for o in ops
         ):
             nd = json.loads(json.dumps(d))
             srcs = (ch["srcs"] + [["n"]] * 3)[:3]
